@@ -67,6 +67,7 @@ def run(ctx):
         res.floor("explicit raise statements classified", n_raise, 30)
         res.floor("methods checked for dropped parameters", n_alias, 70)
         check_idddict(repo, res)
+        check_dict_bypass(repo, res)
         check_foot(repo, eng, res)
         check_clear_update(repo, eng, res)
         check_merge_first(repo, res)
@@ -90,6 +91,47 @@ def check_idddict(repo, res):
     res.inst("E-TYPE", "IDDict.__setitem__ rejects None with XGIError", ok)
     if not ok:
         res.add(mk_finding(PROP, "E-TYPE", m, m.node if m else ci.node, "IDDict.__setitem__ does not reject None with XGIError", role="__setitem__"))
+
+
+def check_dict_bypass(repo, res):
+    """E-TYPE: IDDict turns a missing key into IDNotFound only in __getitem__ / __delitem__ (and whatever else it
+    overrides); a keyed plain-dict method it does not override (pop, popitem ...) called on one of the four tables with a
+    key that no membership test established raises a bare KeyError."""
+    mi = repo.modules.get("xgi.utils.utilities")
+    idd = mi.classes.get("IDDict") if mi else None
+    overridden = set(idd.methods) if idd else set()
+    keyed = {"pop"} - overridden
+    n = 0
+    for cname in CORE_CLASSES:
+        ci = repo.get_class(cname)
+        for m in ci.methods.values():
+            selfn = m.params[0] if m.params else "self"
+            par = None
+            for c in ast.walk(m.node):
+                if not (isinstance(c, ast.Call) and isinstance(c.func, ast.Attribute) and c.func.attr in keyed and isinstance(c.func.value, ast.Attribute) and c.func.value.attr in TABLES and isinstance(c.func.value.value, ast.Name) and c.func.value.value.id == selfn):
+                    continue
+                n += 1
+                ok = len(c.args) >= 2  # a default makes the call total
+                if not ok:
+                    par = par or _parents(m.node)
+                    key = unparse(c.args[0]) if c.args else "?"
+                    table = c.func.value.attr
+                    p = c
+                    while p in par and not ok:
+                        child, p = p, par[p]
+                        if isinstance(p, ast.If):
+                            for t in ast.walk(p.test):
+                                if isinstance(t, ast.Compare) and len(t.ops) == 1 and isinstance(t.ops[0], (ast.In, ast.NotIn)) and unparse(t.left) == key and table in unparse(t.comparators[0]):
+                                    ok = True
+                        if isinstance(p, ast.Try) and any(child is b or any(child is x for x in ast.walk(b)) for b in p.body):
+                            for h in p.handlers:
+                                names = [h.type.id] if isinstance(h.type, ast.Name) else [e.id for e in getattr(h.type, "elts", []) if isinstance(e, ast.Name)]
+                                if set(names) & {"KeyError", "Exception"} and any(isinstance(r, ast.Raise) and r.exc is not None and (getattr(r.exc.func if isinstance(r.exc, ast.Call) else r.exc, "id", None) in LIB_ERRORS) for r in ast.walk(h)):
+                                    ok = True
+                res.inst("E-TYPE", f"{m.qualname}:{c.lineno} `{unparse(c, 40)}` cannot surface a bare KeyError", ok)
+                if not ok:
+                    res.add(mk_finding(PROP, "E-TYPE", m, c, f"{m.qualname}: `{unparse(c, 50)}` uses dict.{c.func.attr}, which IDDict does not override; for an ID that is not in the network it raises a bare KeyError instead of the library's IDNotFound (only __getitem__ and __delitem__ convert it)", role=f"{c.func.attr}"))
+    res.inst("E-TYPE", f"{n} keyed plain-dict method calls on the tables (IDDict overrides {sorted(overridden & {'__getitem__', '__delitem__', '__setitem__', 'pop'})})", True)
 
 
 def _parents(fn_node):
